@@ -315,7 +315,15 @@ pub use self::hostile::{{Ty, En, {g} as Fty}};
     assert!(Ord::cmp(&a, &b) == (p, q).cmp(&(r, s)));
     let c = Clone::clone(&a);
     assert!(c == a);
+    let mut d = Ty { a: Fty(r), b: Some(Fty(s)), c: Fty(2) };
+    Clone::clone_from(&mut d, &a);
+    assert!(d == a && d.c == Fty(1), "clone_from did not reproduce every field");
     if (p, q) == (r, s) { assert!(rec_of(&a).same(&rec_of(&b))); }
+    let mut want = Rec::new();
+    core::hash::Hash::hash(&Fty(p), &mut want);
+    core::hash::Hash::hash(&Some(Fty(q)), &mut want);
+    core::hash::Hash::hash(&Fty(1), &mut want);
+    assert!(rec_of(&a).same(&want), "hash does not feed every field through its own Hash");
     let e = En::A(Fty(p), Fty(q));
     let f = En::B { x: None };
     assert!(e != f && Clone::clone(&e) == e && Ord::cmp(&e, &f) == Ordering::Less);
